@@ -27,6 +27,7 @@ CONSTANTS
     CapN,         \* response-size cap expressed as "trips after CapN data batches" (0 = none)
     Cache,        \* call-state cache entries (0 = disabled)
     Compress,     \* response compression on/off (client asks for zstd)
+    CapProbe,     \* TRUE: also offer the unary / exchange response-cap probes
     Debug, HookMode
 
 VARIABLES
@@ -253,9 +254,32 @@ Continue(i) ==
             /\ view' = IF more THEN AddView(view, bs, FALSE) ELSE EmptyView
             \* an accepted exchange turn returns exactly one data batch carrying a fresh cursor;
             \* a failed one an error and no cursor
+            \* class tag: a dynamic exchange whose input is not already in the run-time input schema
+            \* (the HTTP path casts against the registered schema only -- see DESIGN 14)
             /\ RecordC([WithEnd(Resp("Continue", a, 200, bs, ok, FALSE, <<"exchange">>, TRUE, ~ok),
                                 AddView(view, bs, FALSE), ~more, TRUE)
-                        EXCEPT !.exp = @ @@ [inmeta |-> MetaKeys(cur.meta)]])
+                        EXCEPT !.exp = @ @@ [inmeta |-> MetaKeys(cur.meta)]]
+                       @@ (IF cur.m = "dynx" /\ cur.cast # "eq" THEN [cls |-> "dynx-cast"] ELSE NoRec))
+
+(* C19, first sentence: with max_response_bytes set, a unary or exchange response whose body     *)
+(* would exceed the cap is replaced by an error.  The driver measures the uncapped response      *)
+(* and sets the cap relative to it: "over" = the body exceeds the cap, "fits" = it does not.      *)
+UnaryCap(rel, i) ==
+    /\ Budget /\ CapProbe /\ ph = "idle" /\ ncalls < MaxCalls
+    /\ ncalls' = ncalls + 1
+    /\ UNCHANGED <<ph, cur, pos, sent, view>>
+    /\ LET a == [m |-> "u_val", rel |-> rel, inst |-> i] IN
+       IF rel = "over"
+       THEN RecordC(Resp("UnaryCap", a, 200, << Exc("RuntimeError", "") >>, FALSE, FALSE, <<"unary">>, TRUE, TRUE))
+       ELSE RecordC(Resp("UnaryCap", a, 200, << Data("x") >>, FALSE, FALSE, <<"unary">>, TRUE, FALSE))
+ExchCap(rel, i) ==
+    /\ Budget /\ CapProbe /\ ph = "idle" /\ ncalls < MaxCalls
+    /\ ncalls' = ncalls + 1
+    /\ UNCHANGED <<ph, cur, pos, sent, view>>
+    /\ LET a == [m |-> "exch", rel |-> rel, inst |-> i] IN
+       IF rel = "over"
+       THEN RecordC(Resp("ExchCap", a, 200, << Exc("RuntimeError", "") >>, FALSE, FALSE, <<"exchange">>, TRUE, TRUE))
+       ELSE RecordC(Resp("ExchCap", a, 200, << Data(2) >>, TRUE, FALSE, <<"exchange">>, TRUE, FALSE))
 
 \* the client stops an exchange stream after its last input (it simply stops sending)
 Init ==
@@ -268,6 +292,7 @@ Init ==
 Next ==
     \/ \E c \in Calls, i \in Inst : Unary(c, i) \/ StreamInit(c, i)
     \/ \E i \in Inst : Continue(i)
+    \/ \E rel \in {"over", "fits"}, i \in Inst : UnaryCap(rel, i) \/ ExchCap(rel, i)
 
 Spec == Init /\ [][Next]_vars
 
@@ -306,6 +331,12 @@ CapsHold ==
 HookBalanced ==
     [][ Stepped => LET h == E.hooks IN
           (Len(h) > 0 /\ h[1][1] = "start") => (Len(h) = 2 /\ h[2][1] = "end" /\ h[2][3] = (E.errs # <<>>)) ]_vars
+
+\* C19 (unary / exchange): an over-cap body is replaced by an error and nothing else
+CapReplaces ==
+    [][ (Stepped /\ Last.a \in {"UnaryCap", "ExchCap"}) =>
+          IF Last.args.rel = "over" THEN E.vals = <<>> /\ Len(E.errs) = 1 /\ ~E.token
+          ELSE Len(E.vals) = 1 /\ E.errs = <<>> ]_vars
 
 View == <<ph, cur, pos, sent, view, ncalls>>
 =============================================================================
